@@ -92,16 +92,17 @@ func (m *metadata) commit() {
 	m.RUnlock()
 }
 
-// persist writes the value to storage under the current key and removes the entry an earlier
-// write left under another deadline
+// persist writes the value to storage under the current key and then removes the entry an
+// earlier write left under another deadline. In this order a crash between the two steps leaves
+// two entries (the older one is dropped when the storage is opened again), never none; and a
+// failed write leaves the previous entry in place.
 func (m *metadata) persist(ss storage.Storage) error {
-	if m.stored != nil && m.stored.Expiration != m.key.Expiration {
-		_ = ss.Delete(m.stored)
-		m.stored = nil
-	}
 	err := ss.Set(m.key, m.value)
 	if err != nil {
 		return err
+	}
+	if m.stored != nil && m.stored.Expiration != m.key.Expiration {
+		_ = ss.Delete(m.stored)
 	}
 	m.stored = ds.NewKey(m.key.Name, m.key.Expiration)
 	return nil
